@@ -225,10 +225,12 @@ pub fn scan_cas(root: &Path, names: &Names) -> (Vec<String>, Vec<String>, usize,
                     }
                     None => {
                         // canonical path of SOME hash (64 lower-case hex digits, file bytes match)?
-                        let flat: String = r.replace('/', "");
-                        let canonical = flat.len() == 64
-                            && r.len() == 66
-                            && flat.bytes().all(|b| b.is_ascii_digit() || (b'a'..=b'f').contains(&b));
+                        let parts: Vec<&str> = r.split('/').collect();
+                        let canonical = parts.len() == 3
+                            && parts[0].len() == 2
+                            && parts[1].len() == 2
+                            && parts[2].len() == 60
+                            && parts.iter().all(|p| p.bytes().all(|b| b.is_ascii_digit() || (b'a'..=b'f').contains(&b)));
                         if canonical && p3.is_file() {
                             unk += 1;
                         } else {
